@@ -25,6 +25,11 @@ def genparams():
     if rc != 0:
         return False, out
     vlib.write_if_changed(os.path.join(vlib.coq_dir(PROJ), "theories", "Gen", "Params.v"), out)
+    # source-to-Gallina translation of internal/csm's node level (SrcEquiv.v ties it to CsmModel.v)
+    rc, out = vlib.run([binp, "-repo", vlib.REPO, "csmsrc"])
+    if rc != 0:
+        return False, out
+    vlib.write_if_changed(os.path.join(vlib.coq_dir(PROJ), "theories", "Gen", "CsmSrc.v"), out)
     return True, ""
 
 
@@ -341,4 +346,18 @@ def compose_step(ctx, prop, res, broken):
     merged["theorems"] = list(res["theorems"]) + list(res2["theorems"])
     merged["axioms"] = sorted(set(res["axioms"]) | set(res2["axioms"]))
     merged["ok"] = res.get("ok", False) and res2.get("ok", False)
-    return merged, (broken or broken2)
+    broken = broken or broken2
+    # third proof step: the tie between /repo's SOURCE (Gen/CsmSrc.v, translated on this run) and the model
+    res3 = vlib.props_check(PROJ, "SrcTie") if os.path.exists(os.path.join(vlib.coq_dir(PROJ), "theories", "SrcEquiv.vo")) else \
+        {"ok": False, "obligations": 0, "discharged": 0, "theorems": [], "axioms": [], "log": "SrcEquiv.vo was not built", "file": "theories/SrcEquiv.v"}
+    merged["obligations"] += res3["obligations"]
+    merged["discharged"] += res3["discharged"]
+    merged["theorems"] += list(res3["theorems"])
+    merged["axioms"] = sorted(set(merged["axioms"]) | set(res3["axioms"]))
+    merged["ok"] = merged["ok"] and res3.get("ok", False)
+    merged["source_tie"] = {"file": "coq/cron/theories/Gen/CsmSrc.v", "translated_from": ["internal/csm/util.go", "internal/csm/common_node.go", "internal/csm/day_node.go"],
+                            "equivalence": "coq/cron/theories/SrcEquiv.v", "checked": bool(res3.get("ok"))}
+    if not res3.get("ok") and broken is None:
+        broken = {"stage": "source-tie", "what": "the Go source of internal/csm's node level (translated into Gen/CsmSrc.v on this run) is no longer proved "
+                  "equivalent to the model the cron theorems are about (SrcEquiv.v / Props/SrcTie.v)", "file": res3.get("file"), "detail": res3.get("log", "")[-2000:]}
+    return merged, broken
